@@ -3,7 +3,7 @@ Spec: Detector.tla / DetectorModel.tla (algebra, selection table, verdicts), Uni
 import random, math, warnings
 import numpy as np
 from scipy.constants import k as KB, e as QE
-from ..core import deadline, import_repo, MachineryError
+from ..core import deadline, import_repo, MachineryError, fresh_repo
 from ..rng_tap import tap
 
 LEVEL = "model_checking"
@@ -136,6 +136,21 @@ def run(ctx):
             rhs = PD(optical_signal(xn.signal + xn.noise), BW, r_, 300.0, RL, **kw).signal - base + 1e-7 * RL
             law("ase-only-noise=PD(total)-PD(signal)+dark", lhs + 1, rhs + 1)
         ctx.case(("laws", npol, n > 100, it % 3))
+    # ------------------------------------------------------------------ history independence (same BW under another sampling rate before)
+    for it, (cfgA, cfgB) in enumerate([(dict(sps=16, R=2.5e9), dict(sps=8, R=10e9)), (dict(sps=8, R=10e9), dict(sps=16, R=1e9)), (dict(sps=4, R=10e9), dict(sps=16, R=10e9))]):
+        rs = np.random.RandomState(900 + it)
+        f = (rs.randn(200) + 1j * rs.randn(200)) * 1e-2
+        BW = 3e9
+        with warnings.catch_warnings():
+            warnings.simplefilter("ignore")
+            gv(**cfgA); np.random.seed(4); PD(optical_signal(f), BW)
+            gv(**cfgB); np.random.seed(4); after = PD(optical_signal(f), BW)
+            with fresh_repo() as lib:
+                lib["typing"].gv(**cfgB); np.random.seed(4)
+                fresh = lib["devices"].PD(lib["typing"].optical_signal(f), BW)
+        law("result-independent-of-call-history", after.signal + 1, fresh.signal + 1)
+        law("result-independent-of-call-history", after.noise * 1e3 + 1, fresh.noise * 1e3 + 1)
+        ctx.case(("history", it))
     # ------------------------------------------------------------------ verdicts
     setgv(0)
     good = optical_signal(np.ones(100) * 0.01)
